@@ -299,7 +299,7 @@ func TestVerifC05(t *testing.T) {
 	bound := c.Pick(2, 3)
 	c.Rule(fmt.Sprintf("every interleaving with at most %d preemptions of each closed harness around the real operations queue (scheduling point before every mutex, atomic, channel, waitgroup and goroutine operation); states = distinct scheduler choice points visited, transitions = scheduling steps executed; distinct = distinct final observations (run order, return order)", bound))
 	c.Set("preemption_bound", bound)
-	c.Assume("sequentially consistent memory; writer preference of RWMutex not modelled (not used by operations.go)")
+	c.Assume("sequentially consistent memory")
 	deadline := c.Deadline(time.Duration(c.Pick(120, 900)) * time.Second)
 
 	scs := c05Scenarios()
